@@ -1099,7 +1099,7 @@ PROPS = {
     "C07": {
         "property_modules": ["Zlink.Properties.C07"],
         "lean_modules": ["Zlink.Properties.C07"],
-        "theorems": ["C07.C07_safe", "C07.C07_complete", "C07.C07_oracle", "C07.C07_state_only_in_connection"],
+        "theorems": ["C07.C07_safe", "C07.C07_complete", "C07.C07_oracle", "C07.C07_state_only_in_connection", "C07.C07_parked_poll_is_noop"],
         "run": run_rx, "search": search_rx,
         "trusted_base": TB_COMMON, "assumptions": RX_ASSUME,
     },
